@@ -6,5 +6,7 @@ table = subprocess.run([sys.executable, os.path.join(ROOT, 'tools', 'design_tabl
 p = os.path.join(ROOT, 'DESIGN.md')
 s = open(p).read()
 s2 = re.sub(r'<!-- TABLE-BEGIN -->.*?<!-- TABLE-END -->', lambda m: '<!-- TABLE-BEGIN -->\n' + table + '<!-- TABLE-END -->', s, flags=re.S)
+fl = subprocess.run([sys.executable, os.path.join(ROOT, 'tools', 'design_findings.py')], capture_output=True, text=True, check=True).stdout
+s2 = re.sub(r'<!-- FINDINGS-BEGIN -->.*?<!-- FINDINGS-END -->', lambda m: '<!-- FINDINGS-BEGIN -->\n' + fl + '<!-- FINDINGS-END -->', s2, flags=re.S)
 open(p, 'w').write(s2)
 print('table injected, %d lines' % table.count('\n'))
